@@ -966,3 +966,27 @@ pub(crate) fn cellbase_to_template(tx: &TransactionView) -> CellbaseTemplate {
         data: tx.data().into(),
     }
 }
+
+#[cfg(feature = "verif-hooks")]
+impl BlockAssembler {
+    /// verif-hooks, read-only: is the template's cellbase / extension / dao what the three builders
+    /// give for the template's own snapshot, epoch and transactions (none failing its resolve check)?
+    pub(crate) fn verif_template_fresh(&self, cur: &CurrentTemplate) -> [bool; 3] {
+        let t = &cur.template;
+        let cb = Self::build_cellbase(&self.config, &cur.snapshot)
+            .map(|c| c.hash() == t.cellbase.hash())
+            .unwrap_or(false);
+        let ext = Self::build_extension(&cur.snapshot)
+            .map(|e| e == t.extension)
+            .unwrap_or(false);
+        let dao = Self::calc_dao(
+            &cur.snapshot,
+            &cur.epoch,
+            t.cellbase.clone(),
+            t.transactions.clone(),
+        )
+        .map(|(d, _ok, failed)| d == t.dao && failed.is_empty())
+        .unwrap_or(false);
+        [cb, ext, dao]
+    }
+}
